@@ -141,7 +141,7 @@ def check_url(s):
 
 
 def gen_exhaustive(tier, seed):
-    maxlen = 4 if tier == "quick" else 5
+    maxlen = 5 if tier == "quick" else 6
     maxlen = int(__import__("os").environ.get("C14_MAXLEN", maxlen))
     for n in range(0, maxlen + 1):
         for tup in itertools.product(ALPHA, repeat=n):
@@ -231,7 +231,7 @@ CASES = [
     Case("parse_url/exhaustive-short-strings", gen_exhaustive, check_url,
          rule="every string over the alphabet a A : / ? # @ [ ] % \\ . 0 2 SP e-acute, after each of the prefixes 'http://', '//', ''; "
               "non-trivial = distinct input strings",
-         bound="length <= 4 (quick) / <= 5 (thorough) after the prefix", functions=["urllib3.util.url.parse_url"]),
+         bound="length <= 5 (quick) / <= 6 (thorough) after the prefix", functions=["urllib3.util.url.parse_url"]),
     Case("parse_url/hostile-components", gen_grammar, check_url,
          rule="pairwise-complete + random products of hostile scheme/userinfo/host/port/path/query/fragment spellings (seeded by VERIF_SEED)",
          bound="6x10x18x14x16x10x7 component spellings: all pairs + 1.2e5 (quick) / 1.2e6 (thorough) random products", exhaustive=False,
